@@ -21,6 +21,11 @@ type c13Case struct {
 	Kinds  []string `json:"kinds"`         // per session: "nocp" | "buff" | "forw" | "drop" | "nodl"
 	Events []int    `json:"events"`        // sequence of targets: session index, -1 unknown F-SEID, -2 zero
 	CPSEID []uint64 `json:"cpseid"`
+	// NewCP (per session, 0 = none): after the establishments the control plane moves the session to another CP
+	// F-SEID with a Session Modification Request - a bare one (only the F-SEID, TS 29.244 7.5.4) when NewCPBare,
+	// else together with a restated Update FAR. Reports are then addressed with the new SEID.
+	NewCP     []uint64 `json:"newcp,omitempty"`
+	NewCPBare []bool   `json:"newcpbare,omitempty"`
 }
 
 func genC13(t *rapid.T) c13Case {
@@ -38,6 +43,17 @@ func genC13(t *rapid.T) c13Case {
 			cp += 0x101
 		}
 		c.CPSEID = append(c.CPSEID, cp)
+	}
+	for i := 0; i < n; i++ {
+		var ncp uint64
+		if rapid.IntRange(0, 3).Draw(t, "newcp") == 0 {
+			ncp = genSEID(t)
+			for ncp == 0 || dupIn(c.CPSEID, ncp) || dupIn(c.NewCP, ncp) {
+				ncp += 0x10001
+			}
+		}
+		c.NewCP = append(c.NewCP, ncp)
+		c.NewCPBare = append(c.NewCPBare, rapid.Bool().Draw(t, "bare"))
 	}
 	ne := rapid.IntRange(1, scale(60, 200)).Draw(t, "nev")
 	for i := 0; i < ne; i++ {
@@ -94,6 +110,27 @@ func runC13(c c13Case, ev *Ev) error {
 		if o := run.Exec(op); !o.Accepted {
 			return fmt.Errorf("establishment %d (%s) not accepted: cause %d", i, k, o.Cause)
 		}
+	}
+	moved := 0
+	cpNow := append([]uint64(nil), c.CPSEID...)
+	for i, ncp := range c.NewCP {
+		if ncp == 0 || i >= len(c.Kinds) {
+			continue
+		}
+		op := model.Op{Kind: "mod", Peer: 0, Seq: uint32(5000 + i), Sess: i, NewCP: true, NewCPSEID: ncp}
+		if !c.NewCPBare[i] {
+			for _, f := range run.Sess[i].FARs {
+				if f.ID == 1 {
+					f.HasFwd = true
+					op.UpdFARs = []model.FAR{f}
+				}
+			}
+		}
+		if o := run.Exec(op); !o.Accepted {
+			return fmt.Errorf("modification of session %d with a new CP F-SEID (bare=%v) not accepted: cause %d", i, c.NewCPBare[i], o.Cause)
+		}
+		cpNow[i] = ncp
+		moved++
 	}
 	// expected: one report for each notifying session that is hit at least once
 	want := map[int]bool{}
@@ -165,12 +202,12 @@ func runC13(c c13Case, ev *Ev) error {
 		// which session? the header carries the CP SEID; find by Downlink Data Report + CP SEID
 		idx := -1
 		for i := range c.Kinds {
-			if c.CPSEID[i] == sr.SEID() {
+			if cpNow[i] == sr.SEID() {
 				idx = i
 			}
 		}
 		if idx < 0 {
-			return fmt.Errorf("Session Report Request addressed to SEID %#x, which is no session's CP SEID", sr.SEID())
+			return fmt.Errorf("Session Report Request addressed to SEID %#x, which is no session's current CP SEID (current: %#x, at establishment: %#x)", sr.SEID(), cpNow, c.CPSEID)
 		}
 		if !sr.HasSEID() {
 			return fmt.Errorf("Session Report Request without SEID in the header")
@@ -215,6 +252,9 @@ func runC13(c c13Case, ev *Ev) error {
 		}
 	}
 	ev.Label(fmt.Sprintf("up4=%v", c.UP4))
+	if moved > 0 {
+		ev.Label("cp-fseid-changed")
+	}
 	ev.Case(c, len(kinds) >= 3 && multi, len(c.Events))
 	return nil
 }
